@@ -37,6 +37,11 @@ PINNED = [
     "a5::projections::authalic::GEODETIC_TO_AUTHALIC", "a5::projections::authalic::AUTHALIC_TO_GEODETIC",
 ]
 REL = 1e-15
+# coefficients of the two authalic sine series: the series value is a latitude in radians (|.| <= pi/2) and each
+# coefficient enters it multiplied by a sine, so a coefficient that moves by less than half an ulp of 1.0 cannot move
+# the sum by more than its own rounding (a re-derived last coefficient, 4.9e-17, may change in every digit)
+ABS_SERIES = 2.0 ** -54
+SERIES = ("a5::projections::authalic::GEODETIC_TO_AUTHALIC", "a5::projections::authalic::AUTHALIC_TO_GEODETIC")
 
 
 def collect(facts):
@@ -92,6 +97,8 @@ def run(ctx):
             run.bad("C06.R1", "pin:" + p, "shape changed: %d leaves, reference has %d" % (len(a), len(b)), where(facts.consts[p]["span"]))
             continue
         diffs = [(ka, va, vb) for (ka, va), (kb, vb) in zip(a, b) if ka != kb or not close(va, vb)]
+        if p in SERIES:
+            diffs = [(k, va, vb) for k, va, vb in diffs if not (isinstance(va, float) and isinstance(vb, float) and abs(va - vb) <= ABS_SERIES)]
         leaves += len(a)
         if diffs:
             ka, va, vb = diffs[0]
